@@ -637,7 +637,7 @@ func classify(j job, l *logged, exit int, timedOut bool, tail, stderr string) cr
 		}
 		c.Sig = fmt.Sprintf("C05:blocked:%s:%s", j.entry, w[0])
 		for _, blk := range strings.Split(stderr, "\n\n") {
-			if strings.Contains(blk, frugalPkg+w[0]+"(") && strings.Contains(blk, "[sync.") {
+			if strings.Contains(blk, frugalPkg+w[0]+"(") && (strings.Contains(blk, "[sync.") || strings.Contains(blk, "[chan ") || strings.Contains(blk, "[select")) {
 				c.Stack = firstLines(blk, 16)
 				break
 			}
